@@ -7,6 +7,7 @@ package bam
 import (
 	"bytes"
 	"encoding/binary"
+	"encoding/hex"
 	"errors"
 	"fmt"
 	"io"
@@ -348,7 +349,18 @@ func parseAux(aux []byte) ([]sam.Aux, error) {
 				if j == -1 {
 					return nil, errors.New("bam: invalid zero terminated data: no zero")
 				}
-				aa = append(aa, sam.Aux(aux[i:i+j:i+j]))
+				if t == 'H' {
+					// The BAM value is a hex string; sam.Aux holds the bytes.
+					h := make(sam.Aux, 3+hex.DecodedLen(j-3))
+					copy(h, aux[i:i+3])
+					_, err := hex.Decode(h[3:], aux[i+3:i+j])
+					if err != nil {
+						return nil, fmt.Errorf("bam: invalid hex data: %w", err)
+					}
+					aa = append(aa, h)
+				} else {
+					aa = append(aa, sam.Aux(aux[i:i+j:i+j]))
+				}
 				i += j + 1
 			case 'B':
 				length := binary.LittleEndian.Uint32(aux[i+4 : i+8])
@@ -499,6 +511,13 @@ func newBuffer(br *Reader) (*buffer, error) {
 func buildAux(aa []sam.Aux) (aux []byte) {
 	for _, a := range aa {
 		// TODO: validate each 'a'
+		if a.Type() == 'H' {
+			// sam.Aux holds the bytes; the BAM value is a hex string.
+			aux = append(aux, []byte(a[:3])...)
+			aux = append(aux, hex.EncodeToString(a[3:])...)
+			aux = append(aux, 0)
+			continue
+		}
 		aux = append(aux, []byte(a)...)
 		switch a.Type() {
 		case 'Z', 'H':
